@@ -282,10 +282,26 @@ theorem sget_eq_vfind {s : List (Nat × Entry)} (t k : Nat) (h : (s.map (·.1)).
 
 /-! ### the concrete codec meets the contract -/
 
-theorem decode_encode (m : List (Nat × Nat)) : decode (encode m) = some m := by
+theorem decode_encode (m : List (Nat × Nat)) (h : encodable natCodec m = true) : decode (encode m) = some m := by
   induction m with
   | nil => simp [encode, decode]
-  | cons p r ih => obtain ⟨k, v⟩ := p; simp [encode, decode, ih]
+  | cons p r ih =>
+    obtain ⟨k, v⟩ := p
+    simp only [encodable, natCodec, List.all_cons, Bool.and_eq_true, Bool.not_eq_true'] at h
+    have hr : encodable natCodec r = true := by simpa [encodable, natCodec] using h.2
+    simp [encode, decode, ih hr, h.1]
+
+theorem decode_lossy (m : List (Nat × Nat)) (h : encodable natCodec m = false) : decode (encode m) = none := by
+  induction m with
+  | nil => simp [encodable] at h
+  | cons p r ih =>
+    obtain ⟨k, v⟩ := p
+    cases hv : lossyVal v with
+    | true => simp [encode, decode, hv]
+    | false =>
+      have hr : encodable natCodec r = false := by
+        simpa [encodable, natCodec, hv] using h
+      simp [encode, decode, hv, ih hr]
 
 theorem decode_prefix (m : List (Nat × Nat)) (n : Nat) (h : n < (encode m).length) :
     decode ((encode m).take n) = none := by
@@ -306,7 +322,7 @@ theorem decode_prefix (m : List (Nat × Nat)) (n : Nat) (h : n < (encode m).leng
       simp [encode, decode, ih n this]
 
 theorem natCodec_lawful : natCodec.Lawful :=
-  ⟨decode_encode, decode_prefix⟩
+  ⟨decode_encode, decode_lossy, decode_prefix⟩
 
 /-! ### invariant of reachable worlds -/
 
